@@ -554,6 +554,10 @@ func ZZC10Overlap() {
 	end := uint64(rt.Choose("end", len(digs)+1))
 	start := uint64(rt.Choose("start", int(end)+1))
 	version := uint64(rt.Choose("version", len(digs)+1))
+	// the answers are kept: a handler serialises them, and a client verifies them, after the
+	// query has returned and released its locks — while the insertion goes on
+	var heldMP *balloon.MembershipProof
+	var heldIP *balloon.IncrementalProof
 	query := func() {
 		switch kind {
 		case 0:
@@ -564,6 +568,7 @@ func ZZC10Overlap() {
 				if cur < len(issued) {
 					snap := &balloon.Snapshot{HistoryDigest: issued[cur].HistoryDigest, HyperDigest: issued[cur].HyperDigest, Version: uint64(cur)}
 					rt.Assert(mp.DigestVerify(digs[e], snap), "overlapping-membership-proof-verifies")
+					heldMP = mp
 				}
 			}
 		case 1:
@@ -573,13 +578,30 @@ func ZZC10Overlap() {
 			var err error
 			if rt.NoPanic(func() { ip, err = n.QueryConsistency(start, end) }, "consistency-query-overlapping-insert") && err == nil && int(end) < len(issued) {
 				rt.Assert(ip.Verify(issued[start], issued[end]), "overlapping-consistency-proof-verifies")
+				heldIP = ip
 			}
+		}
+	}
+	recheck := func() {
+		if heldMP != nil {
+			cur := int(heldMP.CurrentVersion)
+			snap := &balloon.Snapshot{HistoryDigest: issued[cur].HistoryDigest, HyperDigest: issued[cur].HyperDigest, Version: uint64(cur)}
+			rt.Assert(heldMP.DigestVerify(digs[e], snap), "answer-still-verifies-once-the-insertion-is-applied")
+		}
+		if heldIP != nil {
+			rt.Assert(heldIP.Verify(issued[start], issued[end]), "consistency-answer-still-verifies-once-the-insertion-is-applied")
 		}
 	}
 	// the next committed entry, ready to be applied
 	var hs []hashing.Digest
 	h := models.EventHasherF(zzBits)()
-	for _, ev := range zzEvents(0x40, 1) {
+	// the event in flight lands either far from every earlier event or next to the most recent
+	// one (same first digest byte: it then changes a subtree that earlier answers refer to)
+	inflight := zzEvents(0x40, 1)
+	if rt.Choose("in-flight-event-near", 2) == 1 {
+		inflight = zzEvents(byte(0x10+prior-1), 2)[1:]
+	}
+	for _, ev := range inflight {
 		hs = append(hs, h.Do(ev))
 	}
 	cmd := newCommand(addEventCommandType)
@@ -604,6 +626,7 @@ func ZZC10Overlap() {
 			g.apply(0, entry)
 		}
 		rt.Cover(applyWaited, "insertion-waited-for-the-query")
+		recheck()
 		return
 	}
 	// natively: real goroutines parked at the same two points
@@ -622,6 +645,7 @@ func ZZC10Overlap() {
 	<-done
 	close(finish)
 	<-applied
+	recheck()
 }
 
 // ZZC08ManyTiles: a restart when the persisted hyper cache holds more recovery tiles than one
@@ -649,5 +673,124 @@ func ZZC08ManyTiles() {
 	if err == nil {
 		snap := &balloon.Snapshot{HistoryDigest: g.snaps[0][last].HistoryDigest, HyperDigest: g.snaps[0][last].HyperDigest, Version: uint64(last)}
 		rt.Assert(mp.DigestVerify(g.digs[idx], snap), "old-event-proof-verifies-after-restart")
+	}
+}
+
+// ---- C05/C07: a store write that fails ----
+
+// ZZC05WriteFault: the store refuses one write (I/O error) while an entry is being applied.
+// Whatever the node does about it — die (Raft re-delivers the entry to the restarted
+// process) or report the failure and go on — the events acknowledged afterwards must get
+// the versions that follow the acknowledged ones, and every replica that did not see the
+// fault must agree.
+func ZZC05WriteFault() {
+	g := zzNewGroup(2) // 0: healthy reference, 1: its store fails once
+	n := 1 + rt.Choose("entries", rt.Param("ENTRIES", 3))
+	faultAt := rt.Choose("fault-at-entry", n)
+	for k := 0; k < n; k++ {
+		m := 1 + rt.Choose(fmt.Sprintf("bulk%d", k), rt.Param("BULK", 2))
+		if k != faultAt {
+			g.commit(byte(0x10+k), m)
+			continue
+		}
+		g.stores[1].FailWrite = 0
+		g.down[1] = true
+		g.commit(byte(0x10+k), m) // replica 0 applies it
+		g.down[1] = false
+		e := g.log[len(g.log)-1]
+		before := len(g.snaps[1])
+		died := rt.Try(func() { g.apply(1, e) })
+		if died {
+			// the process is gone; it restarts on its data and Raft delivers the entry again
+			rt.Reach("node-died-on-the-failed-write")
+			g.reopen(1)
+			if !rt.NoPanic(func() { g.apply(1, e) }, "re-delivery-after-failed-write") {
+				return
+			}
+		} else if len(g.snaps[1]) == before {
+			// it reported the failure and lives on: Raft has handed the entry over and will not do so
+			// again, so the replica must not have kept any trace of it...
+			rt.Reach("node-survived-the-failed-write")
+			rt.Assert(g.nodes[1].balloon.Version() == uint64(before), "failed-entry-leaves-the-version-counter-alone")
+		}
+	}
+	// one more entry on both
+	g.commit(0x60, 1)
+	last := len(g.snaps[0]) - 1
+	rt.Assert(g.nodes[1].balloon.Version() == g.nodes[0].balloon.Version(), "same-version-after-the-fault")
+	if last < len(g.snaps[1]) {
+		zzSameSnapshot(g.snaps[0][last], g.snaps[1][last], "after-write-fault")
+	} else {
+		rt.Assert(false, "after-write-fault:versions-stay-dense")
+	}
+	for v := range g.snaps[1] {
+		if g.snaps[1][v] != nil {
+			zzSameSnapshot(g.snaps[0][v], g.snaps[1][v], "after-write-fault")
+		}
+	}
+	zzTablesEqual(g.stores[0], g.stores[1], "after-write-fault")
+	zzProofsVerify(g.nodes[1], g.snaps[0], g.digs, "after-write-fault")
+}
+
+// ZZC07BigBulk: one long run with a big entry — `PRIOR` events in bulks of 50, then a single
+// bulk of `BIG` events that crosses the 256 and 512 version boundaries and produces more than
+// a thousand store mutations — with the process dying right after its k-th store write, for a
+// symbolic k around that entry; restart, Raft replays the log, one more entry. Everything is
+// compared with a replica that never crashed.
+func ZZC07BigBulk() {
+	g := zzNewGroup(2)
+	prior := rt.Param("PRIOR", 200)
+	big := rt.Param("BIG", 330)
+	bulks := prior / 50
+	// replica 1 dies after its (bulks + c)-th write: c = 0 before the big entry's first write …
+	c := rt.Choose("crash-after-write-of-big-entry", rt.Param("WRITES", 3))
+	g.stores[1].CrashAfter = bulks + c
+	for k := 0; k < bulks; k++ {
+		g.commit(byte(0x10+k), 50)
+	}
+	ok := rt.NoPanic(func() { g.commit(0x80, big) }, "big-bulk-applies")
+	if !ok {
+		return
+	}
+	muts := 0
+	for _, b := range g.stores[0].WAL[bulks:] {
+		muts += len(b.Mutations)
+	}
+	rt.Bound("mutations_of_big_entry", muts)
+	rt.Cover(muts > 1024, "big-entry-has-more-than-1024-mutations")
+	writesOfBig := g.stores[1].Mutates - bulks
+	rt.Bound("store_writes_of_big_entry", writesOfBig)
+	g.snaps[1] = nil
+	g.reopen(1)
+	if c >= writesOfBig {
+		rt.Reach("crash-after-the-whole-entry")
+	} else {
+		rt.Reach("crash-inside-or-before-the-entry")
+	}
+	v := g.nodes[1].balloon.Version()
+	rt.Assert(v == uint64(prior) || v == uint64(prior+big), "recovers-to-a-prefix-of-the-committed-log")
+	// Raft replays the whole log (entries already applied must be skipped)
+	for k := 0; k < len(g.log); k++ {
+		ent := g.log[k]
+		if !rt.NoPanic(func() { g.apply(1, ent) }, "replay-after-crash") {
+			return
+		}
+	}
+	g.commit(0xf0, 1)
+	rt.Assert(g.nodes[0].balloon.Version() == g.nodes[1].balloon.Version(), "same-version-after-recovery")
+	last := len(g.snaps[0]) - 1
+	if last < len(g.snaps[1]) {
+		zzSameSnapshot(g.snaps[0][last], g.snaps[1][last], "after-recovery")
+	} else {
+		rt.Assert(false, "after-recovery:same-version")
+	}
+	zzTablesEqual(g.stores[0], g.stores[1], "after-recovery")
+	for _, e := range []int{0, prior + big/2, prior + big - 1} {
+		mp, err := g.nodes[1].QueryDigestMembership(g.digs[e])
+		rt.Assert(err == nil, "membership-query-ok")
+		if err == nil {
+			snap := &balloon.Snapshot{HistoryDigest: g.snaps[0][last].HistoryDigest, HyperDigest: g.snaps[0][last].HyperDigest, Version: uint64(last)}
+			rt.Assert(mp.DigestVerify(g.digs[e], snap), "event-proof-verifies-after-recovery")
+		}
 	}
 }
